@@ -1456,15 +1456,19 @@ def _eval(pb, framework, step, options):
     x_eval = framework.x_best + step
     fun_val, cub_val, ceq_val = pb(x_eval, framework.penalty)
     r_val = pb.maxcv(x_eval, cub_val, ceq_val)
+    # The values returned by the user's functions must pass the tests below as
+    # well, not only the barriers that may have replaced them.
+    feasible = (
+        r_val <= options[Options.FEASIBILITY_TOL]
+        and pb.maxcv_last <= options[Options.FEASIBILITY_TOL]
+    )
     if (
         fun_val <= options[Options.TARGET]
         and pb.fun_last <= options[Options.TARGET]
-        and r_val <= options[Options.FEASIBILITY_TOL]
+        and feasible
     ):
-        # The value returned by the objective function must meet the target
-        # as well, not only the barrier that may have replaced it.
         raise TargetSuccess
-    if pb.is_feasibility and r_val <= options[Options.FEASIBILITY_TOL]:
+    if pb.is_feasibility and feasible:
         raise FeasibleSuccess
     return fun_val, cub_val, ceq_val
 
